@@ -753,6 +753,11 @@ func c09map(c *core.Ctx) {
 	if r.Chance(0.25) { // the small layouts, where buckets are crowded
 		bucketBits = r.Range(1, 3)
 	}
+	wideTags := r.Chance(0.2) // layouts whose tags need more than one header byte
+	if wideTags {
+		tagBits = r.Range(5, 12)
+		c.Count("map_wide_tags")
+	}
 	// ID pool: hostile values and relatives of them that share a bucket or
 	// differ only in high bits
 	var pool []uint64
@@ -768,6 +773,10 @@ func c09map(c *core.Ctx) {
 		if r.Chance(0.3) {
 			pool = append(pool, id^(1<<uint(r.Range(56, 62))))
 		}
+	}
+	// small IDs (below the number of buckets): the header then consists of the tag alone
+	for n := r.Range(0, 3); n > 0; n-- {
+		pool = append(pool, uint64(r.Intn(1<<uint(bucketBits))))
 	}
 	{ // de-duplicate, keeping order
 		seen := map[uint64]bool{}
@@ -794,6 +803,9 @@ func c09map(c *core.Ctx) {
 			l = r.Range(128, 400) // two-byte length varint
 		}
 		e := c09entry{id: id, tag: encoding.Tag(r.Intn(1 << uint(tagBits))), data: c09bytes(r, l)}
+		if wideTags && r.Bool() { // the largest tags of the layout
+			e.tag = encoding.Tag((1 << uint(tagBits)) - 1 - r.Intn(4))
+		}
 		if r.Chance(0.15) && i > 0 {
 			e.tag, e.data = entries[i-1].tag, entries[i-1].data // exact duplicates
 		}
@@ -1058,7 +1070,7 @@ func init() {
 		Technique: "write/read-back differential against the written Go values through every exported read path of package encoding, under the race detector (checkptr)",
 		Rule: "case i exercises container i%5 (0 delta/zigzag integer sequences, 1 MarshalUint64/Uint64Length, 2 ByteArraysBuilder, 3 string table + HashString, 4 Uint64Map); " +
 			"values are drawn from a hostile distribution (0, 2^62, 2^63, 2^64-1, single bits, masks, IDs that share a bucket or differ only in bit 63/62, empty/1-byte/long/non-UTF-8 strings, " +
-			"random reservation/write orders, 1..8 goroutines, layouts bucketBits 1..12 x tagBits 0..4); distinct = distinct generated input and schedule parameters; " +
+			"random reservation/write orders, 1..8 goroutines, layouts bucketBits 1..12 x tagBits 0..12); distinct = distinct generated input and schedule parameters; " +
 			"non-trivial = at least two values/items/strings/entries in the container",
 		Assumptions: []string{
 			"hash/fnv (standard library) is the reference for HashString",
@@ -1078,7 +1090,7 @@ func init() {
 			"strings_hashed_empty", "strings_read", "strings_equal_near_miss", "strings_frequency_ordered",
 			"map_id_bit63", "map_id_bit63_bucketbits_lt_tagbits", "map_lookup_many_entries_per_id", "map_lookup_absent",
 			"map_find_with_tag", "map_iterations", "map_eachitem_parallel", "map_parallel_build",
-		},
+		, "map_wide_tags"},
 		Run: func(c *core.Ctx) {
 			switch c.Index % 5 {
 			case 0:
